@@ -363,6 +363,18 @@ def sim_items(tier):
     out.append((F.with_teams({"tasks": tasks, "links": links}, "POOL3"), {"rule": "TSLACK", "max_time": 60, "phases": ("updated",)}))
     out.append((F.with_teams({"tasks": [{"name": F.tname(i), "work": float(1 + i % 3)} for i in range(10)], "links": [[i, i + 1, "FS"] for i in range(9)]}, "POOL2"),
                 {"rule": "TSLACK", "max_time": 60, "phases": ("updated",)}))
+    # a chain of thirty tasks of eight work units each (one worker: 240 steps, 240 updates of a 30-deep network), with and without a long calendar
+    ch = F.with_teams({"tasks": [{"name": F.tname(i), "work": 8.0} for i in range(30)], "links": [[i, i + 1, "FS"] for i in range(29)]}, "POOL1")
+    out.append((ch, {"rule": "TSLACK", "max_time": 300, "phases": ("updated",)}))
+    out.append((ch, {"rule": "TSLACK", "max_time": 340, "absence": [d for w in range(20) for d in (7 * w + 5, 7 * w + 6)], "phases": ("updated",)}))
+    # automatic tasks that go on during project-wide absence steps (flag set): the update after such a step sees their new remaining work
+    for fl in list(F.flows(3, ("FS",), (2, 3))):
+        for ai in (0, 1, 2):
+            sp = F.with_teams(fl, "POOL2")
+            sp = dict(sp, tasks=[dict(t_, auto=(i == ai)) for i, t_ in enumerate(sp["tasks"])])
+            for ab in ([1], [1, 2], [0, 3], [2, 3, 4]):
+                for aa in (True, False):
+                    out.append((sp, {"rule": "TSLACK", "max_time": F.seq_bound(sp) + 12, "absence": ab, "auto_abs": aa, "phases": ("updated",)}))
     for fl in F.flows(3, ("FS",), (1, 2) if tier == "quick" else (1, 2, 3)):
         for lay in ("POOL1", "POOL2"):
             sp = F.with_teams(fl, lay)
